@@ -1389,9 +1389,19 @@ fn c05(r: &mut Rng, fonts: &[FontInfo], n: u64, tr: &mut Option<std::fs::File>) 
     }
     // (b) threads sharing Face and ShapePlan
     let nthreads = 8;
+    // variable fonts of the corpus: shaped at a non-default instance in every fourth round (variation deltas of advances
+    // and anchors are computed per call from the shared Face)
+    let varfonts: Vec<&FontInfo> = fonts.iter().filter(|f| Face::from_slice(&f.data, 0).map(|x| x.is_variable()).unwrap_or(false)).collect();
     for round in 0..(n / 20).max(4) {
-        let fi = if round % 3 == 2 { &randf } else { &fonts[r.below(fonts.len() as u64) as usize] };
-        let Some(face) = Face::from_slice(&fi.data, 0) else { continue };
+        let variable = round % 4 == 1 && !varfonts.is_empty();
+        let fi = if variable { varfonts[r.below(varfonts.len() as u64) as usize] } else if round % 3 == 2 { &randf } else { &fonts[r.below(fonts.len() as u64) as usize] };
+        let Some(mut face) = Face::from_slice(&fi.data, 0) else { continue };
+        if variable {
+            let vars: Vec<rustybuzz::Variation> = face.variation_axes().into_iter().enumerate().map(|(k, a)| rustybuzz::Variation { tag: a.tag, value: if k % 2 == 0 { a.max_value } else { a.min_value + (a.max_value - a.min_value) * 0.3 } }).collect();
+            face.set_variations(&vars);
+            cnt.bump("thread_rounds_on_a_variable_instance");
+        }
+        let face = face;
         // texts sharing one plan: same direction/script/features
         let dir = *r.pick(&[Direction::LeftToRight, Direction::RightToLeft]);
         let mut reqs: Vec<Req> = Vec::new();
